@@ -64,7 +64,7 @@ impl Property for C06 {
     fn cases(&self, tier: Tier) -> u32 {
         match tier {
             Tier::Quick => 40_000,
-            Tier::Thorough => 100_000,
+            Tier::Thorough => 500_000,
         }
     }
 
